@@ -11,7 +11,7 @@ of `threads` windows, window `s` = the `s`-th `split_at_mut`).
 
 Both loops have the shape
 
-    let chunk_size = items.div_ceil(threads);
+    let chunk_size = items.div_ceil(threads).max(1);
     let (mut scratches, _) = scratch.split_mut(threads, per_thread);
     thread::scope(|scope| {
         for (thread_idx, (scratch_thread, chunk)) in
@@ -78,12 +78,13 @@ def spawnList (base cs threads : Nat) (cks : List (List Nat)) : List (List Work)
       { thread := t, scratch := s, slot := slot, index := base + t * cs + idx }
 
 /-- The common loop: one list of work items per spawned thread.
-`threads = 0` is `div_ceil(0)` (panic "attempt to divide by zero"); `items = 0` makes
-`chunk_size = 0` and `chunks_mut(0)` panics. -/
+`threads = 0` is `div_ceil(0)` (panic "attempt to divide by zero"); `chunk_size =
+items.div_ceil(threads).max(1)`, so `items = 0` spawns no thread (`chunks_mut(1)` of an empty
+slice is empty) instead of panicking in `chunks_mut(0)`. -/
 def parLoop (base items threads : Nat) : Outcome (List (List Work)) :=
   if threads = 0 then .panic "overflow"
   else
-    let cs := divCeil items threads
+    let cs := max (divCeil items threads) 1
     match chunksMut base items cs with
     | .ok cks => .ok (spawnList base cs threads cks)
     | .panic c => .panic c
